@@ -212,14 +212,14 @@ def gen_trace(rng, world, nobs=None, noise=None, spacing=None, perturb=True, exa
         if half_grid:
             q = (round(q[0] * 2 / unit) * unit / 2, round(q[1] * 2 / unit) * unit / 2)
         else:
-            q = (_r(q[0], 4), _r(q[1], 4))
+            q = (_r(q[0] / unit, 4) * unit, _r(q[1] / unit, 4) * unit)
         out.append([q[0], q[1]])
     if perturb and len(out) >= 2:
         r = rng.random()
         i = rng.randrange(len(out))
         if r < outlier_p:      # outlier
-            out[i] = [_r(out[i][0] + rng.choice([-1, 1]) * rng.uniform(4, 15) * unit, 4),
-                      _r(out[i][1] + rng.choice([-1, 1]) * rng.uniform(4, 15) * unit, 4)]
+            out[i] = [_r(out[i][0] / unit + rng.choice([-1, 1]) * rng.uniform(4, 15), 4) * unit,
+                      _r(out[i][1] / unit + rng.choice([-1, 1]) * rng.uniform(4, 15), 4) * unit]
         elif r < outlier_p + 0.08:     # repeat
             out.insert(i, list(out[i]))
         elif r < outlier_p + 0.16:    # exactly on a node
